@@ -202,7 +202,7 @@ def evaluate(env, c):
     environ = environ_for(c)
     # one call in the ancestor process first: whatever the library caches per process/thread must not survive fork()
     ops = [drv.op("W", "log", out + "/log"), drv.op("C", ini), drv.op_exec("v", b"/bin/ancestor", [b"ancestor"], [], ret=-1, err=2),
-           drv.op("x", out + "/log")] + ([drv.op("g", c["bigpid"])] if c.get("bigpid") else []) + [drv.op("f")]
+           drv.op("x", out + "/log"), drv.op("f")]
     if c["host"] is not None:
         ops.append(drv.op("n", c["host"]))
     if c["newsid"]:
@@ -211,6 +211,8 @@ def evaluate(env, c):
         ops.append(drv.op("F", *c["chain"]))
     if c["orphan"]:
         ops.append(drv.op("o"))
+    if c.get("bigpid"):
+        ops.append(drv.op("g", c["bigpid"]))        # the process that makes the call itself gets the 7-digit pid
     ops.append(drv.op("N", c["leaf"]))
     ops.append(drv.op("H", work))
     if c["cwd"] in ("deep", "renamed", "deleted"):
